@@ -96,11 +96,136 @@ def run(ctx) -> None:
     except ImportError:
         return
     bmadx_corr.run_c03(ctx)
+    bmadx_jacobians(ctx, ctx.n(24, 600))
+    vector_maps(ctx, ctx.n(24, 600))
+
+
+VEC_KINDS = ["Quadrupole", "Dipole", "RBend", "Solenoid", "HorizontalCorrector", "VerticalCorrector", "Drift", "Undulator"]
+
+
+def vector_case(rep, r: dict) -> None:
+    """clause: every map is symplectic, also the entries of a vectorised element's map (strength scans through exactly
+    zero, mixed signs): entry b of the batched transfer map must pass the same test as the map of element b alone"""
+    from fals import _c0405 as H
+    rec, En = r["rec"], r["energy"]
+    T = {k: H.tt(v) for k, v in r["T"].items()}
+    el = H.build_t(rec, T)
+    tm = el.transfer_map(torch.tensor(En, dtype=torch.float64)).detach().numpy()
+    B = max(len(v) for v in r["T"].values())
+    try:
+        tm = np.broadcast_to(tm, (B, 7, 7))        # (the vector shape of the result is C04's subject)
+    except ValueError:
+        return
+    for b in range(B):
+        q = dict(rec, **{k: float(v[b]) for k, v in r["T"].items()})
+        sub = type(rep)("C03")
+        check_linear(sub, q, En, tm[b].reshape(-1).tolist())
+        rep.fals_cases += 1
+        if sub.failures:
+            f0 = sub.failures[0]
+            zeros = ",".join(sorted(k for k, v in r["T"].items() if any(x == 0.0 for x in v))) or "none"
+            rep.fail("falsifier", f"C03|{rec['cls']}.transfer_map|vectorised, zeros in: {zeros}|{f0.signature.split('|')[-1]}",
+                     f"entry {b} of the map of a vectorised {rec['cls']} ({', '.join(f'{k}={v}' for k, v in r['T'].items())}): {f0.what}", r)
+            return
+
+
+def vector_maps(ctx, n: int) -> None:
+    from fals import _c0405 as H
+    rep, rng = ctx.report, ctx.rng
+    for i in range(n):
+        kind = VEC_KINDS[i % len(VEC_KINDS)]
+        rec = H.gen_kind(rng, kind)
+        names = [k for k in H.PARAMS[rec["cls"]] if k not in ("gap", "fint", "fintx")]
+        B = int(rng.integers(2, 5))
+        T = {}
+        for j in rng.choice(len(names), size=int(rng.integers(1, min(3, len(names)) + 1)), replace=False):
+            nm = names[int(j)]
+            vals = [H.sample_value(rng, kind, nm) for _ in range(B)]
+            if nm != "L" and rng.random() < 0.6:
+                vals[int(rng.integers(B))] = 0.0          # a scan that passes through exactly zero
+            T[nm] = vals
+        r = {"kind": "vector_map", "rec": rec, "T": T, "energy": float(E.energy(rng))}
+        rep.count(f"vector-map:{kind}")
+        rep.case(("vector_map", kind, tuple(sorted(T))), None)
+        try:
+            vector_case(rep, r)
+        except Exception as ex:  # noqa: BLE001  (vectorisation failures are C04's subject)
+            rep.count(f"vector-map:rejected:{type(ex).__name__}")
+
+
+S6 = np.zeros((6, 6))
+for _k, _sg in ((0, 1.0), (2, 1.0), (4, -1.0)):      # tau carries the sign of the time-like convention
+    S6[_k, _k + 1], S6[_k + 1, _k] = _sg, -_sg
+
+
+def bmadx_case(rep, r: dict) -> None:
+    """clause: the (non-linear) Bmad-X maps are symplectic at every point of the paraxial region: J^T S J = S, det J = 1
+    with J the autograd Jacobian of the one-particle map at the given point"""
+    import torch
+    import cheetah
+    from fals import C07 as F7
+    p, En, v = r["params"], r["energy"], r["point"]
+    el = F7.build(p)
+    en = torch.tensor(En, dtype=torch.float64)
+    q = torch.tensor([1e-12], dtype=torch.float64)
+
+    def f(x):
+        P = torch.cat([x, torch.ones(1, dtype=torch.float64)]).unsqueeze(0)
+        return el.track(cheetah.ParticleBeam(P, en, particle_charges=q, dtype=torch.float64)).particles[0, :6]
+    x0 = torch.tensor(v, dtype=torch.float64)
+    out = f(x0).detach().numpy()
+    if not np.all(np.isfinite(out)):
+        return                                 # outside the domain of the map (C07 / C09 report non-finite design orbits)
+    J = torch.autograd.functional.jacobian(f, x0).detach().numpy()
+    where = "on axis" if not any(v[:5]) and v[5] == 0 else "off axis"
+    big = "|angle|>=pi/2" if abs(p.get("angle", 0.0)) >= math.pi / 2 else "generic"
+    tag = F7.cls_tag(p)
+    if not np.all(np.isfinite(J)):
+        return                                 # (non-finite gradients are C05's subject)
+    nrm = max(1.0, float(np.max(np.abs(J))))
+    D = J.T @ S6 @ J - S6
+    d = float(np.max(np.abs(D)))
+    if not d <= 1e-8 * nrm * nrm:
+        i, j = np.unravel_index(int(np.argmax(np.abs(D))), D.shape)
+        rep.fail("falsifier", f"C03|{tag}.track|{big}|jacobian not symplectic",
+                 f"{tag} ({', '.join(f'{k}={w!r}' for k, w in p.items() if k not in ('cls', 'method'))}) at E = {En!r} eV, point {v} ({where}): "
+                 f"max |J^T S J - S| = {d:.3g} at [{i},{j}], det J = {float(np.linalg.det(J))!r}", r)
+
+
+def bmadx_jacobians(ctx, n: int) -> None:
+    from fals import C07 as F7
+    import lattices as LT
+    rep, rng = ctx.report, ctx.rng
+    for i in range(n):
+        kind = ["Drift", "Quadrupole", "Dipole", "Dipole", "RBend", "Quadrupole"][i % 6]
+        if kind == "Drift":
+            p = LT.gen_record(rng, "BmadxDrift")
+        elif kind == "Quadrupole":
+            p = F7.gen_quad(rng, allow_L0=False)
+        else:
+            p = F7.gen_dipole(rng, kind, allow_zero_angle=False)
+        En = float(E.energy(rng))
+        P = np.array(F7.gen_particles(rng, 4, En))
+        v = P[int(rng.integers(0, 4)), :6].tolist()
+        r = {"kind": "bmadx_jacobian", "params": p, "energy": En, "point": v}
+        rep.fals_cases += 1
+        rep.count(f"bmadx-jacobian:{kind}:{'big-angle' if abs(p.get('angle', 0.0)) >= math.pi / 2 else 'generic'}")
+        rep.case(("bmadx_jacobian",) + E.config_key(p), None)
+        try:
+            bmadx_case(rep, r)
+        except Exception as ex:  # noqa: BLE001
+            rep.count(f"bmadx-jacobian:rejected:{type(ex).__name__}")
 
 
 def replay(ctx, data) -> bool:
     r = data["replay"]
     from common import Report
     rep = Report("C03")
+    if r.get("kind") == "bmadx_jacobian":
+        bmadx_case(rep, r)
+        return bool(rep.failures)
+    if r.get("kind") == "vector_map":
+        vector_case(rep, r)
+        return bool(rep.failures)
     check_linear(rep, r["params"], r["energy"], E.real_map(E.build(r["params"]), r["energy"]))
     return bool(rep.failures)
